@@ -932,7 +932,7 @@ func callTo(fs ...*ssa.Function) func(ssa.Instruction) bool {
 
 // Subst maps the parameters of a private helper to the arguments of one call
 // site (composed across nesting).
-type Subst map[*ssa.Parameter]ssa.Value
+type Subst map[ssa.Value]ssa.Value
 
 // A Scope is a function body seen as part of an owner function: the owner
 // itself (empty substitution) or a private helper statically called from it,
@@ -946,15 +946,30 @@ type Scope struct {
 func (s Subst) resolve(v ssa.Value) ssa.Value {
 	for i := 0; i < 6; i++ {
 		v = stripConv(v)
-		p, ok := v.(*ssa.Parameter)
-		if !ok {
-			return v
+		switch x := v.(type) {
+		case *ssa.Parameter, *ssa.FreeVar:
+			a, ok := s[v]
+			if !ok {
+				return v
+			}
+			v = a
+			continue
+		case *ssa.UnOp:
+			// load through a variable captured by reference: the cell of the enclosing function
+			if x.Op == token.MUL {
+				if fv, ok := x.X.(*ssa.FreeVar); ok {
+					if a, ok := s[fv]; ok {
+						if al, ok := a.(*ssa.Alloc); ok {
+							if st := singleStore(al); st != nil {
+								v = st
+								continue
+							}
+						}
+					}
+				}
+			}
 		}
-		a, ok := s[p]
-		if !ok {
-			return v
-		}
-		v = a
+		return v
 	}
 	return v
 }
@@ -975,7 +990,26 @@ func scopesOf(f *ssa.Function) []Scope {
 					continue
 				}
 				h := call.Call.StaticCallee()
-				if h == nil || h == f || h == sc.Fn || !isPrivateHelper(h) || !IsRepoFunc(h) || h.Blocks == nil {
+				if h == nil || h == f || h == sc.Fn || !IsRepoFunc(h) || h.Blocks == nil {
+					continue
+				}
+				// an unexported function, or a closure made in this scope (a local helper for a repeated block)
+				var mc *ssa.MakeClosure
+				if h.Parent() != nil {
+					if h.Parent() != sc.Fn {
+						continue
+					}
+					mc, _ = call.Call.Value.(*ssa.MakeClosure)
+					if mc == nil {
+						// the closure kept in a local variable
+						if st, ok := stripConv(call.Call.Value).(*ssa.MakeClosure); ok {
+							mc = st
+						}
+					}
+					if mc == nil && len(h.FreeVars) > 0 {
+						continue
+					}
+				} else if !isPrivateHelper(h) {
 					continue
 				}
 				s := Subst{}
@@ -985,6 +1019,13 @@ func scopesOf(f *ssa.Function) []Scope {
 				for i, p := range h.Params {
 					if i < len(call.Call.Args) {
 						s[p] = sc.S.resolve(call.Call.Args[i])
+					}
+				}
+				if mc != nil {
+					for i, fv := range h.FreeVars {
+						if i < len(mc.Bindings) {
+							s[fv] = sc.S.resolve(mc.Bindings[i])
+						}
 					}
 				}
 				n := Scope{Fn: h, S: s, Via: call}
